@@ -49,7 +49,7 @@ function analyze (job, resp, prefix) {
   const missed = []
   const wrongName = []
   const notEnabled = []
-  const byTag = {}
+  const byTag = Object.create(null)
   let hooked = 0
   P.pairs(a, b, (x, y) => {
     if (y.__hook) {
